@@ -3,6 +3,7 @@
 sources (never to /repo), runs the property check against the copy and compares the verdict:
   kind=break  -> exit 1 and the expected rule id reported
   kind=benign -> exit 0 (behaviour-preserving twin: the rule must stay silent)
+  kind=undetected -> a confirmed seeded break in a clause declared not decided (documented miss; only exit 2 counts as a failure)
 usage: selftest/run.py [pid|mutant-name ...]"""
 import json, os, shutil, subprocess, sys, tempfile
 from concurrent.futures import ThreadPoolExecutor
@@ -31,6 +32,9 @@ def run_one(m, repo="/repo"):
         out = r.stdout + r.stderr
         if m["kind"] == "break":
             ok = r.returncode == 1 and ("rule %s " % m["expect"]) in out
+        elif m["kind"] == "undetected":
+            # a confirmed seeded break in a clause the check declares as not decided: kept so that the miss stays visible (rc shows whether a later rule reports it)
+            ok = r.returncode in (0, 1)
         else:
             ok = r.returncode == 0
         return {"name": m["name"], "kind": m["kind"], "expect": m.get("expect", ""), "rc": r.returncode, "ok": ok, "stale": False, "tail": "\n".join(out.splitlines()[-8:])}
